@@ -9,7 +9,7 @@ the termination signal from an operator, terminate_job() or a hard limit in
 each of those states: it must stop its task, run the exit callback, exit, take
 no further job, and its job must not resolve with the signal's SystemExit.
 Oracles: wall-clock bound with confirm-alone re-run and the host's thread
-stacks as hang witness, /proc census, thread-set diff, worker-side event log."""
+stacks as hang witness, /proc census, thread-set diff, worker-side event log.  Worker states include 'sending its result' (a return value that takes long to serialise)."""
 import signal
 
 from vmon.core import rng_for
